@@ -223,7 +223,7 @@ def run(ck):
     # ---------------- R3 ----------------
     # (a) every doReject override
     for f in prog.find(P + "impl::Continuation::doReject", 6):
-        w = walk_calls(f.events())
+        w = [e for e in walk_calls(f.events()) if id(e) in cfg.feasible_events(f)]
         badw = [e for e in w if e.get("callee") == REQ_RESOLVE]
         ck.ob("C11-R3", "doReject@%s" % f.line, not badw, f.loc, f,
               "rejection path fulfils a chained request at %s" % badw[0].loc if badw else "%d chained call(s), all reject" % len(w))
@@ -278,20 +278,22 @@ def run(ck):
                           "chained calls=%d (resolve=%d) state-store=%d exc-store=%d" % (len(w), len(badw), len(st), len(ex)))
         if not thencalls:
             # value / void finishResolve: fulfilment walk must only resolve
-            w = walk_calls(f.events())
+            w = [e for e in walk_calls(f.events()) if id(e) in cfg.feasible_events(f)]
             badw = [e for e in w if e.get("callee") == REQ_REJECT]
             ck.ob("C11-R3", "finishResolve-walk@%s" % f.line, bool(w) and not badw, f.loc, f, "%d chained call(s), reject=%d" % (len(w), len(badw)))
     ck.require(nlam >= 2, "rejection lambdas of finishResolve not found (found %d)" % nlam)
     for f in prog.find(P + "impl::Continuation::Chainer::operator()", 2):
-        w = walk_calls(f.events())
+        w = [e for e in walk_calls(f.events()) if id(e) in cfg.feasible_events(f)]
         badw = [e for e in w if e.get("callee") == REQ_REJECT]
         ck.ob("C11-R3", "Chainer@%s" % f.line, bool(w) and not badw, f.loc, f, "%d chained call(s), reject=%d" % (len(w), len(badw)))
     for f in prog.find(A + "Rejection::operator()", 1):
-        w = walk_calls(f.events())
+        # (the walk may sit in a helper shared with Resolver and handed the target state: only what is reachable with that state counts)
+        live_ = cfg.feasible_events(f)
+        w = [e for e in walk_calls(f.events()) if id(e) in live_]
         badw = [e for e in w if e.get("callee") == REQ_RESOLVE]
         ck.ob("C11-R3", "Rejection::operator()", bool(w) and not badw, f.loc, f, "%d chained call(s), resolve=%d" % (len(w), len(badw)))
     for f in prog.find(A + "Resolver::operator()", 2):
-        w = walk_calls(f.events())
+        w = [e for e in walk_calls(f.events()) if id(e) in cfg.feasible_events(f)]
         badw = [e for e in w if e.get("callee") == REQ_REJECT]
         ck.ob("C11-R3", "Resolver::operator()%s" % ("" if f.params else "<void>"), bool(w) and not badw, f.loc, f, "%d chained call(s), reject=%d" % (len(w), len(badw)))
 
